@@ -1,0 +1,13 @@
+//go:build verif
+
+// Contracts for package context (C13, C08).  Comment-only file.
+
+package context
+
+// WithoutCancel wraps its parent in a struct whose Value method delegates: the ghost view of the
+// result is stated, not derived (the wrapper type is not modelled).
+//@ func WithoutCancel
+//@   trusted
+//@   pure
+//@   ensures !isnil(result) && ctxparent(result) == parent
+//@   ensures forall k interface{} :: ctxval(result, k) == ctxval(parent, k)
